@@ -141,10 +141,10 @@ def gen_params(draw, max_hosts=12, max_services=5, small=True):
     if draw(st.booleans()):
         p["exploit_cost"] = draw(st.sampled_from([1, 2, 0.5, 3.25]))
         p["privesc_cost"] = draw(st.sampled_from([1, 2, 0.5, 1.5]))
-        p["service_scan_cost"] = draw(st.sampled_from([1, 0, 2, 0.5]))
-        p["os_scan_cost"] = draw(st.sampled_from([1, 0, 2, 0.25]))
-        p["subnet_scan_cost"] = draw(st.sampled_from([1, 0, 3, 0.5]))
-        p["process_scan_cost"] = draw(st.sampled_from([1, 0, 2, 0.75]))
+        p["service_scan_cost"] = draw(st.sampled_from([1, 0, 2, 0.5, 0.3]))
+        p["os_scan_cost"] = draw(st.sampled_from([1, 0, 2, 0.25, 0.7]))
+        p["subnet_scan_cost"] = draw(st.sampled_from([1, 0, 3, 0.5, 0.3, 0.1]))
+        p["process_scan_cost"] = draw(st.sampled_from([1, 0, 2, 0.75, 0.2]))
     if draw(st.booleans()):
         p["base_host_value"] = draw(st.sampled_from([1, 0, 2, 0.5]))
         p["host_discovery_value"] = draw(st.sampled_from([1, 0, 2, 0.5, 40, 250]))
@@ -197,6 +197,22 @@ def gen_params_many_features(draw):
     if draw(st.booleans()):
         p["num_exploits"] = draw(st.integers(20, 60))
         p["num_privescs"] = draw(st.integers(10, 30))
+    return p
+
+
+@st.composite
+def gen_params_huge(draw):
+    """hundreds of hosts: the DMZ / sensitive subnets (one host per 40 / 41) outgrow the user subnets (5 hosts),
+    dozens of subnets"""
+    p = draw(gen_params(max_hosts=12, max_services=3))
+    p["num_hosts"] = draw(st.sampled_from([100, 160, 199, 200, 201, 202, 240, 321, 400])) + draw(st.integers(0, 3))
+    p.pop("address_space_bounds", None)
+    p["uniform"] = False
+    p.setdefault("alpha_H", 2.0)
+    p.setdefault("alpha_V", 2.0)
+    p.setdefault("lambda_V", 1.0)
+    if isinstance(p.get("exploit_probs"), list) or isinstance(p.get("privesc_probs"), list):
+        p["exploit_probs"], p["privesc_probs"] = 0.5, 0.75
     return p
 
 
